@@ -320,7 +320,7 @@ func (g *Gen) Doc(forUpdate bool, pInc float64) GenDoc {
 			}
 		}
 		for _, f := range []string{"big1", "big2"} {
-			if g.R.Float64() < 0.12 {
+			if g.R.Float64() < 0.12 && !g.Cfg.Mem {
 				if forUpdate && g.R.Float64() < 0.3 {
 					real[f] = "_delete"
 					get(f).del = true
